@@ -2,7 +2,7 @@
    This file contains only statements, each closed by [exact] of a lemma proved in proofs/, and a
    Print Assumptions per theorem. *)
 From OptreeModel Require Import Base Tree Flatten Unflatten.
-From OptreeProofs Require Import RoundTrip.
+From OptreeProofs Require Import RoundTrip Replace.
 
 (* For every configuration (none_is_leaf, namespace, any predicate, any registry, any dict-order
    mode, any depth limit) and every well-formed object: if flatten succeeds, unflattening the
@@ -24,6 +24,18 @@ Theorem C01_reflatten :
     flatten c o' = Ok (ls, sp).
 Proof. exact reflatten. Qed.
 Print Assumptions C01_reflatten.
+
+(* Unflattening the treespec with ANY n leaf-typed replacement objects (objects the traversal treats
+   as leaves: opaque objects, None under none_is_leaf, instances of unregistered classes) and flattening
+   the result returns exactly those n objects and the identical treespec. Stated without a predicate:
+   a predicate may accept one of the rebuilt containers. *)
+Theorem C01_flatten_unflatten_replace :
+  forall c o ls sp ls',
+    c_pred c = None -> wf_obj o = true -> flatten c o = Ok (ls, sp) ->
+    length ls' = length ls -> forallb (leaflike c) ls' = true ->
+    exists o', unflatten sp ls' = Ok o' /\ flatten c o' = Ok (ls', sp).
+Proof. exact flatten_unflatten_replace. Qed.
+Print Assumptions C01_flatten_unflatten_replace.
 
 (* non-vacuity: a tree using every node kind flattens and round-trips *)
 Example C01_example_nonvacuous :
